@@ -67,7 +67,8 @@ type Conn struct {
 	Stmts      int
 	TxStmts    int
 	// Tag is free for the harness (e.g. the client a transaction belongs to).
-	Tag string
+	Tag    string
+	killCh chan struct{} // KILL QUERY interrupts a statement that is still executing (a delay fault)
 }
 
 // Snapshot is the session state a statement executed under.
@@ -167,7 +168,7 @@ func (c *Conn) status() uint16 {
 func (b *Backend) serve(nc *simnet.Conn) {
 	cl := b.cl
 	cl.nextConn++
-	c := &Conn{ID: cl.nextConn, B: b, nc: nc, pc: myproto.NewPacketConn(nc), Autocommit: true, Charset: "utf8mb4", Collation: "utf8mb4_general_ci", Vars: map[string]string{}, UserVars: map[string]string{}}
+	c := &Conn{ID: cl.nextConn, B: b, nc: nc, pc: myproto.NewPacketConn(nc), killCh: make(chan struct{}, 1), Autocommit: true, Charset: "utf8mb4", Collation: "utf8mb4_general_ci", Vars: map[string]string{}, UserVars: map[string]string{}}
 	b.Conns = append(b.Conns, c)
 	defer func() {
 		c.Closed = true
@@ -306,7 +307,14 @@ func (c *Conn) command(pkt []byte) bool {
 		fa = cl.Fault(c, st)
 	}
 	if fa != nil && fa.Delay > 0 {
-		verifhook.Sleep(fa.Delay)
+		// the statement "executes" for a while; KILL QUERY from another connection interrupts it
+		select {
+		case <-c.killCh:
+			st.Outcome = "err:1317"
+			c.observe(st)
+			return c.pc.WritePacket(myproto.ERR(1317, "70100", "Query execution was interrupted")) == nil
+		case <-verifhook.After(fa.Delay):
+		}
 	}
 	if fa != nil && !fa.AfterExec {
 		switch {
@@ -339,7 +347,7 @@ func (c *Conn) observe(st *Stmt) {
 	if c.B.cl.OnStmt != nil {
 		c.B.cl.OnStmt(c, st)
 	}
-	if c.B.cl.Logf != nil {
+	if c.B.cl.Logf != nil && st.Cmd != "ping" && strings.ToLower(st.SQL) != "select 1" && !strings.HasPrefix(strings.ToLower(st.SQL), "show slave status") {
 		sql := st.SQL
 		if len(sql) > 160 {
 			sql = sql[:160] + "..."
@@ -385,6 +393,21 @@ func (c *Conn) execute(st *Stmt) *Reply {
 		st.Outcome = "ok"
 		return &Reply{}
 	case "savepoint":
+		st.Outcome = "ok"
+		return &Reply{}
+	case "kill":
+		// KILL [QUERY|CONNECTION] <id>
+		f := strings.Fields(strings.TrimSuffix(strings.TrimSpace(st.SQL), ";"))
+		var id uint64
+		fmt.Sscan(f[len(f)-1], &id)
+		for _, o := range c.B.Conns {
+			if uint64(o.ID) == id && !o.Closed {
+				select {
+				case o.killCh <- struct{}{}:
+				default:
+				}
+			}
+		}
 		st.Outcome = "ok"
 		return &Reply{}
 	case "set":
